@@ -680,6 +680,11 @@ func wellformed(b *world.Bound, model *Model, root []*Node, q string) (confStats
 		case "prepare":
 			return st, "wellformed-rejected", fmt.Errorf("a query that is well-formed against the advertised schema was rejected: %v", err)
 		default:
+			if strings.Contains(q, "bnn_") {
+				// a resolver that broke its NonNullable promise was selected: an error is the
+				// right answer (not a type or shape failure of the schema)
+				return st, "", nil
+			}
 			return st, "accepted-but-fails", fmt.Errorf("validation accepted the query but execution failed: %v", err)
 		}
 	}
